@@ -389,6 +389,7 @@ func queryNeverRecords(c *Check, a *Anchors, rule string) {
 func methodResolution(c *Check, a *Anchors, rule string) {
 	c.Rule(rule, "every function of package task that hands a fingerprint method to a checker (WithMethod / NewSourcesChecker) resolves it the same way on all paths: the task's own `method:` when it is set, the Taskfile-wide method otherwise — the up-to-date check, --status, the JSON listing and the rollback after a failure must agree, otherwise the rollback removes the state of the wrong checker")
 	n := 0
+	helpers := map[*ssa.Function]bool{}
 	for _, fb := range c.P.BodiesIn(PkgTask) {
 		uses := false
 		for _, call := range callsIn(fb, false) {
@@ -406,7 +407,7 @@ func methodResolution(c *Check, a *Anchors, rule string) {
 		}
 		c.Fn(fb)
 		var pe *PathEnum
-		pe = &PathEnum{Fn: fn, MaxRevisit: 0, EventR: func(in ssa.Instruction, resolve func(ssa.Value) ssa.Value) (string, string) {
+		pe = &PathEnum{Fn: fn, MaxRevisit: 0, NoInline: true, EventR: func(in ssa.Instruction, resolve func(ssa.Value) ssa.Value) (string, string) {
 			call, ok := in.(*ssa.Call)
 			if !ok {
 				return "", ""
@@ -414,6 +415,13 @@ func methodResolution(c *Check, a *Anchors, rule string) {
 			f := call.Common().StaticCallee()
 			if f == nil || f.Pkg == nil || f.Pkg.Pkg.Path() != PkgFingerprint || (f.Name() != "WithMethod" && f.Name() != "NewSourcesChecker") {
 				return "", ""
+			}
+			// the method may be resolved by a helper of the package (e.fingerprintMethod(t)): the helper is judged on its own
+			if hc, ok := resolve(call.Common().Args[0]).(*ssa.Call); ok {
+				if hf := hc.Common().StaticCallee(); hf != nil && hf.Pkg != nil && hf.Pkg.Pkg.Path() == PkgTask {
+					helpers[hf] = true
+					return "method=helper", "call"
+				}
 			}
 			return "method=" + pe.key(resolve(call.Common().Args[0]), nil), "call"
 		}}
@@ -428,6 +436,9 @@ func methodResolution(c *Check, a *Anchors, rule string) {
 				}
 				seen++
 				got := strings.TrimPrefix(e.Label, "method=")
+				if got == "helper" {
+					continue // judged below
+				}
 				empty, known := false, false
 				for k, v := range p.Asg {
 					if strings.HasPrefix(k, "eq(field:Task.Method,") && strings.HasSuffix(k, `"")`) {
@@ -450,6 +461,35 @@ func methodResolution(c *Check, a *Anchors, rule string) {
 		}
 		n++
 		c.Decide(len(bad) == 0, rule, "method@"+fnDisplay(fb), fb.Body.Pos(), fmt.Sprintf("task method wins on all %d path(s)", seen), firstN(bad, 2))
+	}
+	// resolver helpers: every path returns the task's own method when it is set, the Taskfile's otherwise
+	for hf := range helpers {
+		hp := &PathEnum{Fn: hf, MaxRevisit: 0, NoInline: true}
+		hp.Run()
+		c.Paths += len(hp.Paths)
+		var bad []string
+		for _, p := range hp.Paths {
+			if p.Panic || len(p.Out) != 1 {
+				continue
+			}
+			empty, known := false, false
+			for k, v := range p.Asg {
+				if strings.HasPrefix(k, "eq(field:Task.Method,") && strings.HasSuffix(k, `"")`) {
+					empty, known = v, true
+				}
+			}
+			want := "field:Taskfile.Method"
+			if known && !empty {
+				want = "field:Task.Method"
+			}
+			if !known {
+				bad = append(bad, "the helper chooses the method without testing whether the task has its own `method:`: "+p.String())
+			} else if p.Out[0] != want {
+				bad = append(bad, fmt.Sprintf("task method set: %v, but the helper returns %s (expected %s): %s", !empty, p.Out[0], want, p))
+			}
+		}
+		n++
+		c.Decide(len(bad) == 0 && len(hp.Paths) > 0, rule, "method@"+hf.String(), hf.Pos(), fmt.Sprintf("task method wins on all %d path(s) of the helper", len(hp.Paths)), firstN(bad, 2))
 	}
 	c.Floor(rule, n, 2)
 }
